@@ -28,6 +28,7 @@ func expandC11(_ *testing.T, seed uint64, tier string) []*core.Plan {
 		n = r.Range(34, 120)
 	}
 	connected := map[int]bool{}
+	cidOf := map[int]string{}
 	ids := []string{"", "x", "y", "z"}
 	// small topic subset per run so that retained topics are hit again
 	nt := r.Range(2, len(Topics))
@@ -37,8 +38,25 @@ func expandC11(_ *testing.T, seed uint64, tier string) []*core.Plan {
 		if !connected[s] {
 			cid := ids[r.Intn(len(ids))]
 			if cid != "" {
-				cid = fmt.Sprintf("%s%d", cid, s) // no takeovers here (C13), slots own their ids
+				cid = fmt.Sprintf("%s%d", cid, s) // slots own their ids ...
 			}
+			if r.Chance(1, 8) {
+				// ... except that now and then a slot presents the id of another
+				// slot's live connection: the broker ends that one itself, and its
+				// will (retained or not) counts like any other publish
+				var live []int
+				for t := 1; t <= nslots; t++ {
+					if connected[t] && cidOf[t] != "" {
+						live = append(live, t)
+					}
+				}
+				if len(live) > 0 {
+					t := live[r.Intn(len(live))]
+					cid = cidOf[t]
+					connected[t] = false
+				}
+			}
+			cidOf[s] = cid
 			clean := r.Chance(1, 2)
 			if cid == "" {
 				clean = true
